@@ -1,4 +1,5 @@
 import Cirbo.Proofs.Mutate
+import Cirbo.Proofs.MoreOps
 import Cirbo.Proofs.RemoveGate
 /-!
 # C02 — Circuits stay well formed under every history of public mutations
@@ -9,7 +10,11 @@ import Cirbo.Proofs.RemoveGate
 -- OBLIGATION: c02_topological_iteration_after_history
 -- OBLIGATION: c02_remove_gate_invariant
 -- OBLIGATION: c02_history_with_removals
--- PARTIAL: the invariant theorem covers add_gate/emplace_gate, add_inputs, mark_as_output, set_outputs, set_inputs, order_inputs, order_outputs, replace_inputs, make_block, delete_block, remove_gate (and into_bench's netlist part in C14). rename_gate, remove_block, make_block_from_slice, connect_circuit (+ five wrappers, both directions), replace_subcircuit, into_bench's users-index edits and copy are modelled one-to-one (Model/Mutate.lean, Mutate2.lean) and compared field by field with the code after every call of random histories, and every state the code produces goes through the Lean checker checkWFU, but their invariant lemmas are not proved yet. "A copy shares no mutable state" is correspondence-only (Lean values cannot alias).
+-- OBLIGATION: c02_copy_invariant
+-- OBLIGATION: c02_make_block_from_slice_invariant
+-- OBLIGATION: c02_left_connection_invariant
+-- OBLIGATION: c02_history_extended
+-- PARTIAL: the invariant theorem covers add_gate/emplace_gate, add_inputs, mark_as_output, set_outputs, set_inputs, order_inputs, order_outputs, replace_inputs, make_block, delete_block, remove_gate, copy, make_block_from_slice and every left connection (connect_circuit(right_connect=False), connect_left, extend_circuit, add_circuit) — and into_bench's netlist part in C14. rename_gate, remove_block, the right-connect direction (connect_right, connect_inputs), replace_subcircuit and into_bench's users-index edits are modelled one-to-one (Model/Mutate.lean, Mutate2.lean) and compared field by field with the code after every call of random histories, and every state the code produces goes through the Lean checker checkWFU, but their invariant lemmas are not proved yet. "A copy is equal to its original" and "shares no mutable state" are correspondence-only (Lean values cannot alias).
 -/
 namespace Cirbo
 
@@ -47,6 +52,23 @@ theorem c02_remove_gate_invariant {c c' : Circuit} {l : Label} (hw : WFS c) (h :
 theorem c02_history_with_removals (ops : List HOp) {c c' : Circuit} (hw : WFS c)
     (hv : ∀ op ∈ ops, op.valid) (h : runHOps c ops = .ok c') : WFS c' := runHOps_wfs ops hw hv h
 
+/-- `copy.copy(circuit)` of a well-formed circuit is well formed -/
+theorem c02_copy_invariant {c c' : Circuit} (hw : WFS c) (h : c.copy = .ok c') : WFS c' := copy_wfs hw h
+
+/-- `make_block_from_slice` keeps every clause -/
+theorem c02_make_block_from_slice_invariant {c c' : Circuit} {name : Label} {ins outs : List Label} (hw : WFS c)
+    (h : c.makeBlockFromSlice name ins outs = .ok c') : WFS c' := makeBlockFromSlice_wfs hw h
+
+/-- connecting, extending by, or adding a well-formed circuit on the left keeps every clause (gates,
+users index, inputs, acyclicity, and the blocks: copied blocks and the new block name existing gates) -/
+theorem c02_left_connection_invariant {c other c' : Circuit} {thisC otherC : List Label} {name : Label} {addP : Bool}
+    (hw : WFS c) (hwo : WFS other) (h : c.connectCircuit other thisC otherC false name addP = .ok c') : WFS c' :=
+  connectLeft_wfs hw hwo h
+
+/-- histories over the extended set of calls -/
+theorem c02_history_extended (ops : List XOp) {c c' : Circuit} (hw : WFS c)
+    (hv : ∀ op ∈ ops, op.valid) (h : runXOps c ops = .ok c') : WFS c' := runXOps_wfs ops hw hv h
+
 /-! Non-vacuity: a concrete history from the empty circuit -/
 open GateType in
 example : ∃ c', runOps Circuit.empty
@@ -60,5 +82,9 @@ example : ∃ c', runOps Circuit.empty
 #print axioms c02_topological_iteration_after_history
 #print axioms c02_remove_gate_invariant
 #print axioms c02_history_with_removals
+#print axioms c02_copy_invariant
+#print axioms c02_make_block_from_slice_invariant
+#print axioms c02_left_connection_invariant
+#print axioms c02_history_extended
 
 end Cirbo
